@@ -247,7 +247,70 @@ pub fn ct_edge_seeds<S: MlDsa>(seed: u64, n: usize, want: usize) {
     for (score, xi) in e.iter().take(want) { println!("CTEDGE {} {} {}", S::SET, score, hexs(xi)); }
 }
 
+/// Inputs of ExpandMask whose first mask polynomial STARTS with a zero coefficient (2^-18 / 2^-20 of all rho''): code that
+/// scans a secret polynomial and stops at the first (non-)zero coefficient behaves differently exactly there.  Searched with
+/// the harness's own SHAKE256 (the first `bits` bits of the stream equal gamma1), confirmed through the library's ExpandMask.
+pub fn ct_mask_seeds(seed: u64, n: usize, want: usize, bits: u32) {
+    use crate::fcases::shake256;
+    let base = Prng::new(seed, 0x1400 + 0xa0 + bits as u64).next();
+    let nt = std::thread::available_parallelism().map(|x| x.get()).unwrap_or(8).min(16);
+    let found: std::sync::Mutex<Vec<[u8; 64]>> = std::sync::Mutex::new(vec![]);
+    std::thread::scope(|sc| { for t in 0..nt { let found = &found; sc.spawn(move || {
+        let mut i = t;
+        while i < n {
+            if i % 65536 < nt && found.lock().unwrap().len() >= want { break; }
+            let mut rho = [0x3cu8; 64];
+            rho[..8].copy_from_slice(&(base.wrapping_add(i as u64)).to_le_bytes());
+            let h = shake256(&[&rho, &[0u8, 0u8]], 3);
+            let v = (h[0] as u32) | ((h[1] as u32) << 8) | ((h[2] as u32) << 16);
+            if v & ((1 << bits) - 1) == 1 << (bits - 1) { found.lock().unwrap().push(rho); }
+            i += nt;
+        } }); } });
+    let mut e = found.into_inner().unwrap();
+    e.sort();
+    for rho in e.iter().take(want) {
+        let ok = if bits == 18 { vh::expand_mask::<1>(1 << 17, rho, 0)[0][0] == 0 } else { vh::expand_mask::<1>(1 << 19, rho, 0)[0][0] == 0 };
+        if ok { println!("CTMASK {} {}", bits, hexs(rho)); }
+    }
+}
+
+/// RNG outputs for which the mask of the (single, constant-time test mode) signing attempt has a special shape: a polynomial
+/// starting with a zero coefficient (about 1 in 150 000 - 260 000), else many zero coefficients.  Found by running the real
+/// entry point natively with the `expand_mask_out` hook event; the chosen outputs are then observed under valgrind.
+pub fn ct_pipe_seeds<S: MlDsa>(seed: u64, n: usize, want: usize) {
+    let base = Prng::new(seed, 0x1400 + 0xb0 + S::SET as u64).next();
+    let nt = std::thread::available_parallelism().map(|x| x.get()).unwrap_or(8).min(16);
+    let found: std::sync::Mutex<Vec<(i64, Vec<u8>)>> = std::sync::Mutex::new(vec![]);
+    std::thread::scope(|sc| { for t in 0..nt { let found = &found; sc.spawn(move || {
+        let mut i = t;
+        while i < n {
+            let mut rng = vec![0xa7u8; 64];
+            rng[32..40].copy_from_slice(&(base.wrapping_add(i as u64)).to_le_bytes());     // xi fixed, rnd varies
+            vh::trace_start();
+            let r = guarded(|| S::dudect(&mut ScriptRng::new(&rng), &[0u8, 1, 2, 3, 4, 5, 6, 7]));
+            let evs = vh::trace_take();
+            if r.is_ok() {
+                if let Some(e) = evs.iter().find(|e| e.0 == "expand_mask_out" && e.1[0] == 0) {
+                    let score = 100_000 * e.1[1] + e.1[2];
+                    if e.1[1] > 0 || e.1[2] >= 1 { found.lock().unwrap().push((score, rng)); }
+                }
+            }
+            i += nt;
+        } }); } });
+    let mut e = found.into_inner().unwrap();
+    e.sort_by(|a, b| b.0.cmp(&a.0).then(a.1.cmp(&b.1)));
+    for (score, rng) in e.iter().take(want) { println!("CTPIPE {} {} {}", S::SET, score, hexs(rng)); }
+}
+
 pub fn run(a: &Args) {
+    if a.u("ctmask", 0) > 0 {
+        for bits in [18u32, 20] { ct_mask_seeds(a.u("seed", 1), a.u("ctmask", 0) as usize, a.u("want", 1) as usize, bits); }
+        return;
+    }
+    if a.u("ctpipe", 0) > 0 {
+        for set in a.sets() { let (n, w) = (a.u("ctpipe", 0) as usize, a.u("want", 1) as usize); for_set!(set, ct_pipe_seeds(a.u("seed", 1), n, w)); }
+        return;
+    }
     if a.u("ctedge", 0) > 0 {
         for set in a.sets() { let (n, w) = (a.u("ctedge", 0) as usize, a.u("want", 2) as usize); for_set!(set, ct_edge_seeds(a.u("seed", 1), n, w)); }
         return;
